@@ -30,10 +30,10 @@ static const double NaN = std::numeric_limits<double>::quiet_NaN();
 // ---------------------------------------------------------------- frozen tolerance constants (see calibration note)
 // K*: multiples of the error model above; calibrated on the unchanged tree to >= 4 x the worst observed ratio
 // (worst observed values are reported as worst[...] in the evidence), at least 16.
-static const double KS_ = 32, KAZI_ = 32, KAREA_ = 64;             // inverse: s12, azi12*s12, S12
-static const double KLAT_ = 32, KLON_ = 64, KDAREA_ = 64;           // direct: lat2*M, lon2*R, S12
-static const double K_CLOSE = 4;                                    // closure identities: multiples of the summed tolerances
-static const double CTR_ = 64;                                      // series truncation: CTR_ * |n|^7
+static const double KS_ = 32, KAZI_ = 16, KAREA_ = 16;             // inverse: s12, azi12*s12, S12
+static const double KLAT_ = 40, KLON_ = 40, KDAREA_ = 40;           // direct: lat2*M, lon2*R, S12
+static const double K_CLOSE = 1;                                    // closure identities: multiples of the summed tolerances
+static const double CTR_ = 128;                                     // series truncation: CTR_ * |n|^7
 static const double KELLAREA_ = 16;                                 // EllipsoidArea, relative, in eps
 #ifndef C09_CALIBRATE
 static const double K_S = KS_, K_AZI = KAZI_, K_AREA = KAREA_, K_LAT = KLAT_, K_LON = KLON_, K_DAREA = KDAREA_, C_TR = CTR_, K_ELLAREA = KELLAREA_;
@@ -42,7 +42,9 @@ static const double K_S = 1e30, K_AZI = 1e30, K_AREA = 1e30, K_LAT = 1e30, K_LON
 #endif
 
 // input class of the known defect in DAuxLatitude::DE (see known_findings.d/C09.json)
-static const char* DEQ_CLASS = "exact-variant,prolate,both-points-within-1deg-of-equator";
+static const char* DEQ_CLASS = "exact-variant,prolate,both-points-within-10deg-of-equator";
+// input class of the known defect in DAuxLatitude::DParametric (NaN when tan(phi1) != tan(phi2) have equal reciprocals)
+static const char* DPAR_CLASS = "exact-variant,|lat|>=45,end-latitude-within-8eps-of-start-latitude";
 
 struct EllSpec { double a, f; bool exact_only, quick; };
 static const double WF = 1 / 298.257223563, WA = 6378137;
@@ -127,7 +129,7 @@ int main(int argc, char** argv) {
   for (int e = 0; e < NELL; ++e) {
     if (!envs[e]) continue;
     if (!ctx.take()) continue;
-    Env& V = *envs[e];
+    Env& V = *envs[e]; V.deq = false;
     for (int mode = 0; mode < 2; ++mode) {
       if (!V.rh[mode]) continue;
       Ctx::Case cs(ctx);
@@ -167,9 +169,10 @@ int main(int argc, char** argv) {
         if (!V.rh[mode]) continue;
         const Rhumb& rh = *V.rh[mode];
         Ctx::Case cs(ctx);
-        V.deq = mode == 1 && V.es.f < 0 && std::fabs(lat1) <= 1 && std::fabs(lat2) <= 1;
+        V.deq = mode == 1 && V.es.f < 0 && std::fabs(lat1) <= 10 && std::fabs(lat2) <= 10;
+        bool dpar = mode == 1 && std::fabs(lat1) >= 45 && std::fabs(lat1) < 90 && lat1 == lat2;      // affects the closure Direct(Inverse) only
         std::string key = V.ename + " exact=" + fmti(mode) + " inv(" + fx(lat1) + "," + fx(lon1) + "," + fx(lat2) + "," + fx(lon2) + ")";
-        mc::Fields F{{"ell", V.ename}, {"exact", fmti(mode)}, {"lat1", fmt(lat1)}, {"lat2", fmt(lat2)}, {"lon12_given", fmt(l12)}, {"class", V.deq ? DEQ_CLASS : "-"}};
+        mc::Fields F{{"ell", V.ename}, {"exact", fmti(mode)}, {"lat1", fmt(lat1)}, {"lat2", fmt(lat2)}, {"lon12_given", fmt(l12)}, {"class", V.deq ? DEQ_CLASS : (dpar ? DPAR_CLASS : "-")}};
         auto FF = [&](const char* kind) { mc::Fields g = F; g.push_back({"kind", kind}); return g; };
         double s12 = SENT, azi12 = SENT, S12 = SENT;
         rh.GenInverse(lat1, lon1, lat2, lon2, Rhumb::ALL, s12, azi12, S12);
@@ -283,9 +286,10 @@ int main(int argc, char** argv) {
         // within this margin of a pole crossing either classification is accepted (4 x the latitude tolerance)
         bool fuzzy = fuzzy0 || d.margin <= 4 * V.keff(KLAT_, mode, CTR_) * (EPS * scale + sens_lat);
         bool closure = closure0 && !fuzzy;
-        V.deq = mode == 1 && V.es.f < 0 && std::fabs(lat1) <= 1 && fabsq(d.lat2) <= 1;
+        V.deq = mode == 1 && V.es.f < 0 && std::fabs(lat1) <= 10 && fabsq(d.lat2) <= 10;
+        bool dpar = mode == 1 && std::fabs(lat1) >= 45 && std::fabs(lat1) < 90 && fabsq(d.lat2 - Q(lat1)) * rhq::deg() <= 8 * EPS;
         std::string key = V.ename + " exact=" + fmti(mode) + " dir(" + fx(lat1) + "," + fx(lon1) + "," + fx(azi) + "," + fx(s12) + ") unroll=" + fmti(unroll);
-        mc::Fields F{{"ell", V.ename}, {"exact", fmti(mode)}, {"lat1", fmt(lat1)}, {"azi12", fmt(azi)}, {"s12", fmt(s12)}, {"unroll", fmti(unroll)}, {"class", V.deq ? DEQ_CLASS : "-"}};
+        mc::Fields F{{"ell", V.ename}, {"exact", fmti(mode)}, {"lat1", fmt(lat1)}, {"azi12", fmt(azi)}, {"s12", fmt(s12)}, {"unroll", fmti(unroll)}, {"class", V.deq ? DEQ_CLASS : (dpar ? DPAR_CLASS : "-")}};
         auto FF = [&](const char* kind) { mc::Fields g = F; g.push_back({"kind", kind}); return g; };
         unsigned mask = Rhumb::LATITUDE | Rhumb::LONGITUDE | Rhumb::AREA | (unroll ? Rhumb::LONG_UNROLL : 0);
         double lat2 = SENT, lon2 = SENT, S12 = SENT;
